@@ -28,9 +28,14 @@ def plan(tier, seed):
         specs.append(dict(kind='files', sub=k,
                           count=6000 if tier == 'thorough' else 300,
                           hashseed=k))
+    for k in range(3 if tier == 'quick' else 16):
+        specs.append(dict(kind='large', sub=k,
+                          pairs=(7, 9, 11) if tier == 'quick'
+                          else (8, 10, 11, 12),
+                          count=4 if tier == 'quick' else 12, hashseed=k))
     meta = dict(
         rule=RULE,
-        require=['files_loaded', 'roots_checked', 'varinfo_0', 'varinfo_1',
+        require=['large_files_loaded', 'files_loaded', 'roots_checked', 'varinfo_0', 'varinfo_1',
                  'varinfo_3', 'with_orderedvarnames',
                  'without_orderedvarnames', 'permid_gaps',
                  'numbering_not_by_level', 'complemented_roots'],
@@ -285,5 +290,144 @@ def one(ctx, _d, path, tabs, sp, meta, info):
                         dict(info, got=dict(lv)))
 
 
+def large(ctx, spec):
+    """Files with thousands of nodes (hundreds of kilobytes): the
+    comparator /\\_i (x_i <=> y_i) under the order x0 < x1 < .. < y0 < ..,
+    built by an own construction (3 * 2**k nodes), written with random
+    conventions; judged on sampled assignments."""
+    import dd.dddmp as _d
+    from vf import big
+    rng = ctx.rng('large', spec['sub'])
+    path = f'L{os.getpid()}.dddmp'
+    for it in range(spec['count']):
+        k = rng.choice(spec['pairs'])
+        extra = rng.randint(0, 2)              # unsupported variables
+        xs = [f'x{i}' for i in range(k)]
+        ys = [f'y{i}' for i in range(k)]
+        supp = xs + ys                          # by level
+        allnames = supp[:]
+        for j in range(extra):
+            allnames.insert(rng.randrange(len(allnames) + 1), f'u{j}')
+        level = {v: i for i, v in enumerate(allnames)}
+        # own diagram: nodes (var, then, else), then-edge regular
+        unique, nodes = dict(), dict()
+
+        def node(v, h, l):
+            if h == l:
+                return h
+            sign = 1
+            if h < 0:
+                h, l, sign = -h, -l, -1
+            key = (v, h, l)
+            u = unique.get(key)
+            if u is None:
+                u = len(nodes) + 2
+                unique[key] = u
+                nodes[u] = key
+            return sign * u
+        memo = dict()
+
+        def Y(i, bits):
+            # y_i == bits[i] and the rest
+            if i == k:
+                return 1
+            key = ('y', i, bits[i:])
+            if key not in memo:
+                rest = Y(i + 1, bits)
+                memo[key] = node(ys[i], rest, -1) if bits[i] \
+                    else node(ys[i], -1, rest)
+            return memo[key]
+
+        def X(i, bits):
+            if i == k:
+                return Y(0, bits)
+            return node(xs[i], X(i + 1, bits + (True,)),
+                        X(i + 1, bits + (False,)))
+        root = X(0, ())
+        neg = rng.random() < 0.3
+        # numbering: children before parents (creation order is one),
+        # shuffled within what that allows
+        ids = {1: 1}
+        order_nodes = sorted(nodes)             # creation order
+        if rng.random() < 0.5:
+            # by level from the bottom, random within a level
+            order_nodes = sorted(nodes, key=lambda u: (
+                -level[nodes[u][0]], rng.random()))
+        for n_, u in enumerate(order_nodes):
+            ids[u] = n_ + 2
+        nvars = len(allnames)
+        var_index = list(range(nvars))
+        rng.shuffle(var_index)                  # level -> CUDD index
+        sup = sorted((var_index[level[v]], level[v], v) for v in supp)
+        id_of = {v: i for i, _, v in sup}
+        perm_of = {v: l for _, l, v in sup}
+        ordered = rng.random() < 0.5
+        varinfo = rng.choice((0, 1, 3) if ordered else (0, 1))
+        lines = ['.ver DDDMP-2.0', '.mode A', f'.varinfo {varinfo}',
+                 f'.nnodes {len(nodes) + 1}', f'.nvars {nvars}',
+                 f'.nsuppvars {len(supp)}']
+        if ordered:
+            lines.append('.orderedvarnames ' + ' '.join(allnames))
+        lines += ['.suppvarnames ' + ' '.join(v for _, _, v in sup),
+                  '.ids ' + ' '.join(str(i) for i, _, _ in sup),
+                  '.permids ' + ' '.join(str(l) for _, l, _ in sup),
+                  '.auxids ' + ' '.join(str(i) for i, _, _ in sup),
+                  '.nroots 1',
+                  f'.rootids {(-1 if (root < 0) != neg else 1) * ids[abs(root)]}',
+                  '.nodes', '1 T 1 0 0']
+        for u in order_nodes:
+            v, h, l = nodes[u]
+            info = {0: id_of[v], 1: perm_of[v], 3: v}[varinfo]
+            lo = (1 if l > 0 else -1) * ids[abs(l)]
+            lines.append(f'{ids[u]} {info} {id_of[v]} {ids[h]} {lo}')
+        lines.append('.end')
+        text = '\n'.join(lines) + '\n'
+        with open(path, 'w') as f:
+            f.write(text)
+        info = dict(pairs=k, nodes=len(nodes), bytes=len(text),
+                    varinfo=varinfo, ordered=ordered, extra=extra)
+        try:
+            bdd = _d.load(path)
+        except Exception as e:
+            ctx.violation('dddmp.load', 'valid-file-rejected:' +
+                          type(e).__name__, dict(info, exc=repr(e)[:300]))
+            continue
+        finally:
+            if os.path.exists(path):
+                os.remove(path)
+        ctx.counters['large_files_loaded'] += 1
+        ctx.note('file_kilobytes_tens', len(text) // 10240)
+        ok, _ = ctx.guard('dddmp.load', _judge_large, ctx, bdd, big, rng, k,
+                          xs, ys, neg, len(nodes), info, case=info)
+        ctx.case(True, 'large', k, varinfo, ordered, it)
+        del bdd
+
+
+def _judge_large(ctx, bdd, big, rng, k, xs, ys, neg, nnodes, info):
+    monitors.check_structure(bdd)
+    monitors.check_order_maps(bdd)
+    if len(bdd.roots) != 1:
+        raise Violation('dddmp.load', 'number-of-roots-differs',
+                        dict(info, got=len(bdd.roots)))
+    (r,) = bdd.roots
+    if len(monitors.reachable(bdd, [r])) != nnodes + 1:
+        raise Violation('dddmp.load', 'number-of-nodes-differs',
+                        dict(info, got=len(monitors.reachable(bdd, [r]))))
+    for _ in range(200):
+        a = {v: rng.random() < 0.5 for v in bdd.vars}
+        p = rng.random()
+        if p < 0.7:
+            for i in range(k):
+                a[ys[i]] = a[xs[i]]
+            if p < 0.3:
+                a[ys[rng.randrange(k)]] ^= True
+        want = all(a[xs[i]] == a[ys[i]] for i in range(k)) != neg
+        if big.eval_bdd(bdd, r, a) != want:
+            raise Violation('dddmp.load', 'roots-denote-other-functions',
+                            dict(info, want=want))
+    ctx.counters['roots_checked'] += 1
+
+
 def run_shard(ctx, spec):
-    ctx.guard(spec['kind'], files, ctx, spec, case=spec)
+    fn = dict(files=files, large=large)[spec['kind']]
+    ctx.guard(spec['kind'], fn, ctx, spec, case=spec)
